@@ -136,7 +136,13 @@ def run(chk, ctx) -> None:
     def source(cname, want_iter, want_attr, want_super):
         fi = impls.get(cname)
         if fi is None:
-            raise AnalysisError(f'{cname}.from_game vanished')
+            if prog.classes.get(cname) is None:
+                raise AnalysisError(f'{cname} vanished')
+            # the class is there, its own search is not: it inherits a search that does not know its composition rule
+            chk.ob('C05.source', f'{cname}.from_game', False, prog.cls(cname).loc,
+                   f'{cname} composes hands by its own rule (its counts of hole / board cards): it has a search of its own that enforces them',
+                   got='no from_game in the class: the inherited search is used')
+            return
         loops = _combination_loops(fi)
         if len(loops) != 1:
             chk.undecided('C05.source', fi.qualname, fi.loc, f'{len(loops)} combination loops')
